@@ -39,6 +39,7 @@ def run(ck, F, E):
     delta_encoding(ck, F)
     legend(ck, F)
     unfiltered(ck, F, ml)
+    converters_total(ck, F)
 
 
 def only_casts_of_bytes(body, e):
@@ -100,6 +101,39 @@ def units(ck, F):
                    "semantic token columns/lengths pass through a conversion that consults the line text",
                    "SemanticToken.%s is computed from UTF-8 byte offsets of token_types() by casts and subtraction only: "
                    "wrong for any line with non-ASCII text" % (bad[0][0] if bad else ""), bad[0][2] if bad else st.span)
+
+
+def converters_total(ck, F):
+    """The server announces no positionEncoding, so UTF-16 is the only agreed unit for every client.  The functions of the
+    server that turn a byte offset into a column (u32 result, a &str and a usize among the parameters) must do so on every
+    path: each value they return is computed by walking the characters of the line -- no early return of the (clamped) byte
+    offset under some client- or input-dependent condition."""
+    n = 0
+    for body in F.bodies.values():
+        if body.crate != "abasic_lsp" or body.kind not in ("Fn", "AssocFn") or body.local_ty(0) != "u32":
+            continue
+        ptys = [body.local_ty(i + 1) for i in range(body.arg_count)]
+        if not (any(t in ("&str", "&alloc::string::String") for t in ptys) and "usize" in ptys):
+            continue
+        n += 1
+        bad = []
+        defs = body.defs().get(0, [])
+        for d in defs:
+            if d[0] in ("assign", "partial"):
+                e = body.rv_expr(d[3])
+            elif d[0] in ("call", "partial-call"):
+                c = d[2]
+                e = ("call", c.callee, [body.expr(a) for a in c.args], c)
+            else:
+                continue
+            names = [x[1].split("::")[-1] for x in expr_calls(e)]
+            if not any(x in ("char_indices", "chars", "encode_utf16") for x in names):
+                bad.append(show(e)[:80])
+        ck.require(bool(defs) and not bad, "C20:UTF16:converter-total:%s" % body.path.split("::")[-1], "position units",
+                   "every value %s returns is computed by walking the characters of the line" % body.path.split("::")[-1],
+                   "%s can return a column that is not derived from the characters of the line (%s): clients were promised "
+                   "UTF-16 columns (no positionEncoding is announced), whatever encodings they list" % (body.path, bad), body.span)
+    ck.floor("C20.byte-offset-to-column converters", n, 1)
 
 
 def delta_encoding(ck, F):
